@@ -46,17 +46,18 @@ type engSource struct {
 }
 
 type engProject struct {
-	Pkgs      []string
-	Targets   map[int]*engTarget
-	Sources   map[int]*engSource
-	Paths     map[int]string // path id -> path relative to the root
-	HelperVer int
-	Pad       map[string]int // per package: an unrelated global
-	Unknown   map[int]string // ids of labels that do not exist (missing dependencies)
-	nextID    int
-	nextPath  int
-	nextLit   int
-	envIDs    map[string]int
+	Pkgs        []string
+	Targets     map[int]*engTarget
+	Sources     map[int]*engSource
+	Paths       map[int]string // path id -> path relative to the root
+	HelperVer   int
+	HelperOrder int            // parity: which of the two entries of the helper's ordered dict HO comes first
+	Pad         map[string]int // per package: an unrelated global
+	Unknown     map[int]string // ids of labels that do not exist (missing dependencies)
+	nextID      int
+	nextPath    int
+	nextLit     int
+	envIDs      map[string]int
 }
 
 func (p *engProject) label(id int) string {
@@ -97,7 +98,7 @@ func (p *engProject) inputs(t *engTarget) []int {
 
 func (p *engProject) kval(t *engTarget) int {
 	if t.Helper {
-		return t.K*100 + p.HelperVer
+		return t.K*100 + p.HelperVer + 7*(p.HelperOrder%2)
 	}
 	return t.K * 100
 }
@@ -120,7 +121,7 @@ func (p *engProject) envKey(t *engTarget) string {
 	// packages' build files are invisible, and the implementation does re-execute on this one
 	k := fmt.Sprintf("%s|K=%d|style=%d|name=%s", p.command(t), t.K, t.Style, t.Name)
 	if t.Helper {
-		k += fmt.Sprintf("|helper=%d", p.HelperVer)
+		k += fmt.Sprintf("|helper=%d|order=%d", p.HelperVer, p.HelperOrder%2)
 	}
 	// Every target's function lives in a module file of its own (see render): nothing another target does can shift the
 	// constant, name or global indices its bytecode uses.
@@ -247,7 +248,14 @@ func (p *engProject) render(root string) error {
 	}
 	// the helper's environment holds a set and a dict of long strings (hash-ordered containers must be pickled in a
 	// process-independent order)
-	helpers := fmt.Sprintf("HV = %d\nHS = set([\"include/alpha/first_header.h\", \"include/beta/second_header.h\", \"include/gamma/third_header.h\", \"include/delta/fourth_header.h\"])\nHD = {\"a-rather-long-key-number-one\": 0, \"a-rather-long-key-number-two\": 0}\n\ndef helper():\n    return HV + len(HS) - 4 + HD[\"a-rather-long-key-number-one\"]\n", p.HelperVer)
+	// ... and a dict whose ENTRY ORDER matters to the helper (a reordering is an edit of what the function references)
+	// (the keys are named before the dict so that swapping the entries moves no constant of the module's pool: only the
+	// order of the dict's entries differs between the two texts)
+	ho := "KA = \"first\"\nKB = \"second\"\nHO = {KA: 1, KB: 2}"
+	if p.HelperOrder%2 == 1 {
+		ho = "KA = \"first\"\nKB = \"second\"\nHO = {KB: 2, KA: 1}"
+	}
+	helpers := fmt.Sprintf("HV = %d\nHS = set([\"include/alpha/first_header.h\", \"include/beta/second_header.h\", \"include/gamma/third_header.h\", \"include/delta/fourth_header.h\"])\nHD = {\"a-rather-long-key-number-one\": 0, \"a-rather-long-key-number-two\": 0}\n%s\n\ndef helper():\n    return HV + len(HS) - 4 + HD[\"a-rather-long-key-number-one\"] + (0 if HO.keys()[0] == KA else 7)\n", p.HelperVer, ho)
 	return os.WriteFile(filepath.Join(root, "helpers.dawn"), []byte(helpers), 0644)
 }
 
